@@ -6,7 +6,8 @@
 (* and between the banner lines, is explored), a directory with the file-  *)
 (* name shapes retention must tell apart (one of them created by an        *)
 (* external writer at any moment), and Read windows over a 10-byte file    *)
-(* (every window in the initial state, a border set in every other state). *)
+(* (every window in the initial state, a border set in every other state), *)
+(* under plain, dot-dot, sibling-directory and symbolic-link names.         *)
 (*                                                                         *)
 (* MC_FileLogger.cfg       Design = "repaired": all properties hold        *)
 (* MC_FileLogger_asis.cfg  Design = "asis" (close, then open -- what golib *)
@@ -39,6 +40,15 @@ BadDate  == <<119, 45, 98, 45, 50, 48, 48, 48, 49, 51, 52, 48>> \o DotLog  \* "w
 TenFile  == <<114>>                                                        \* "r": ten bytes to read
 Ten      == <<1, 2, 3, 4, 5, 6, 7, 8, 9, 10>>
 Survivors == {YoungOwn, Foreign, BadDate, TenFile}
+\* symbolic links in logs/: "l" leads to the directory <home>/logs2, "k" to a file beside <home>,
+\* "j" to the ten-byte file of logs/ itself
+Logs2   == <<108, 111, 103, 115, 50>>
+Seven   == <<7, 7, 7, 7, 7, 7, 7>>
+MCLinks == (<<108>> :> [to |-> <<HomeMark, Logs2>>, file |-> FALSE, data |-> <<>>])
+           @@ (<<107>> :> [to |-> <<HomeMark, <<46, 46>>, <<120>>>>, file |-> TRUE, data |-> Seven])
+           @@ (<<106>> :> [to |-> <<HomeMark, LogsName, TenFile>>, file |-> TRUE, data |-> Ten])
+\* files that are not below logs/: <home>/logs2/r, <home>/r, <home>/../x
+Beyond  == (Logs2 \o <<47>> \o TenFile :> <<9, 9, 9>>) @@ (TenFile :> <<8, 8>>) @@ (<<46, 46, 47, 120>> :> Seven)
 
 MCBanner == BannerOf(Oname, now, St, St, St, <<48>>)
 
@@ -46,7 +56,7 @@ MCInit == /\ now = T0
           /\ conf = [level |-> 2, iv |-> 10, keep |-> 7, rot |-> TRUE, id |-> <<>>, oname |-> <<>>]
           /\ files = (OldOwn :> <<111>>) @@ (EdgeOwn :> <<101>>) @@ (YoungOwn :> <<121>>) @@ (Foreign :> <<102>>)
                      @@ (BadDate :> <<98>>) @@ (TenFile :> Ten)
-          /\ dirs = {} /\ cur = Closed /\ lastDay = 0 /\ lastRot = TRUE
+          /\ dirs = {} /\ links = MCLinks /\ cur = Closed /\ lastDay = 0 /\ lastRot = TRUE
           /\ retainAt = T0 /\ recent = EmptyFn /\ phase = "new" /\ bleft = 0
           /\ acc = 0 /\ wrote = EmptyFn /\ gone = {} /\ fresh = FALSE /\ supp = NoSupp
           /\ deleted = {} /\ rd = NoRead
@@ -88,14 +98,19 @@ MCConf == /\ Live /\ cycles < MaxCycles /\ calls = 0 /\ conf.keep = 7
 MCExt == /\ Live /\ exts < MaxExt /\ exts' = exts + 1 /\ UNCHANGED <<calls, cycles, advs, reads>>
          /\ ExternalFile(NonDate, <<110>>)
 
-ReadNames == {TenFile, <<46, 46, 47>> \o TenFile, <<115, 47, 46, 46, 47>> \o TenFile, <<47>> \o TenFile, <<113>>, <<>>}
+\* r  ../r  s/../r  /r  q  ""   ../logs2/r  ../logs/r  l/r  l  k  j
+ReadNames == {TenFile, <<46, 46, 47>> \o TenFile, <<115, 47, 46, 46, 47>> \o TenFile, <<47>> \o TenFile, <<113>>, <<>>,
+              <<46, 46, 47>> \o Logs2 \o <<47>> \o TenFile, <<46, 46, 47>> \o LogsName \o <<47>> \o TenFile,
+              <<108, 47>> \o TenFile, <<108>>, <<107>>, <<106>>}
 Wide == calls + cycles + advs + exts = 0
+\* the reference answer; where the statement leaves the answer open (a symbolic link), no answer as well
 MCRead == /\ phase = "run" /\ reads < MaxReads /\ reads' = reads + 1 /\ UNCHANGED <<calls, cycles, advs, exts>>
           /\ \E f \in (IF Wide THEN ReadNames ELSE {cur, <<46, 46, 47>> \o TenFile}),
                 e \in (IF Wide THEN -1..11 ELSE {-1, 25}),
                 ln \in (IF Wide THEN -1..12 ELSE {30}) :
-               LET a == ReadAnswer(f, e, ln) IN
-                 Read(f, e, ln, IF a.nil THEN [nil |-> TRUE] ELSE [nil |-> FALSE, before |-> a.before, text |-> a.text], <<>>, <<>>)
+               LET a == ReadAnswer(f, e, ln, Beyond) IN
+                 \/ Read(f, e, ln, IF a.nil THEN [nil |-> TRUE] ELSE [nil |-> FALSE, before |-> a.before, text |-> a.text], <<>>, <<>>, Beyond)
+                 \/ a.und /\ Read(f, e, ln, [nil |-> TRUE], <<>>, <<>>, Beyond)
 
 MCNext == MCOpen \/ MCLog \/ MCAdvance \/ MCCycle \/ MCConf \/ MCExt \/ MCRead
 MCSpec == MCInit /\ [][MCNext]_mcvars
